@@ -8,9 +8,10 @@ import Driver.TablesOps
 import Driver.BlockOps
 import Driver.ThreadsOps
 import Driver.TocOps
+import Driver.SerializerOps
 
 namespace Driver
 
-def handlers : List Handler := [registryHandler, dispatchHandler, normalizeHandler, tablesHandler, blockHandler, threadsHandler, tocHandler]
+def handlers : List Handler := [registryHandler, dispatchHandler, normalizeHandler, tablesHandler, blockHandler, threadsHandler, tocHandler, serializerHandler]
 
 end Driver
